@@ -211,7 +211,7 @@ func (x *Exec) evalPred(fn *ssa.Function, args []Value, old Heap, cur *State, lo
 	save := x.useContracts
 	x.useContracts = false
 	x.inSpec++
-	rv, _ := x.run(fn, a, &State{h: hh}, x.b.True())
+	rv, _ := x.run(fn, a, &State{h: hh, facts: x.seedFacts}, x.b.True())
 	x.inSpec--
 	x.useContracts = save
 	return rv
@@ -321,15 +321,28 @@ func (x *Exec) applyContract(c *Contract, args []Value, st *State, pc *Term) Val
 	x.applied++
 	x.appliedNames[c.Key]++
 	pre := st.h.clone()
+	var preObl []NamedTerm
 	for i, cl := range c.Requires {
 		saveO := x.obligs
 		r := x.evalPred(cl.Fn, args, pre, st, nil, nil).(*Term)
 		x.obligs = saveO
+		if r.Op == "false" {
+			// the precondition is definitely not met at this site: the contract
+			// says nothing here, the body is verified in place (call rule 2)
+			x.applied--
+			x.appliedNames[c.Key]--
+			x.inlined++
+			x.notApplicable = append(x.notApplicable, c.Key+" (requires "+cl.Text+")")
+			rv, rst := x.run(c.Fn, args, &State{h: st.h, facts: st.facts}, pc)
+			st.h = rst.h
+			return rv
+		}
 		t := b.Implies(pc, r)
 		if t.Op != "true" {
-			x.obligs = append(x.obligs, NamedTerm{fmt.Sprintf("%s/call-pre:%s#%d", fnKey(x.stack[len(x.stack)-1]), c.Key, i), t})
+			preObl = append(preObl, NamedTerm{fmt.Sprintf("%s/call-pre:%s#%d", fnKey(x.stack[len(x.stack)-1]), c.Key, i), t})
 		}
 	}
+	x.obligs = append(x.obligs, preObl...)
 	x.seq++
 	tag := fmt.Sprintf("%s%d", sanitize(c.Fn.Name()), x.seq)
 	mods := x.resolveMods(c.Modifies, args, st, nil)
@@ -355,6 +368,9 @@ func (x *Exec) applyContract(c *Contract, args []Value, st *State, pc *Term) Val
 	saveO := x.obligs
 	for _, cl := range c.Ensures {
 		r := x.evalPred(cl.Fn, args, pre, st, nil, results).(*Term)
+		if cl.Label == "diff" {
+			r = b.Eq(r, b.Const(r.S.W, 0))
+		}
 		conj = splitAnd(r, conj)
 	}
 	x.obligs = saveO
@@ -430,6 +446,7 @@ type VC struct {
 	Exec    *Exec
 	Info    map[string]string
 	Replay  *ReplaySpec
+	caseIdx int
 }
 
 type paramInstance struct {
